@@ -17,6 +17,9 @@ CHECKS = {
         "boundary excluded (counted in evidence). Python round modelled as exact round-half-even.",
    design="5/C16"),
 }
+import glob
+for f in sorted(glob.glob(os.path.join(HERE, "manifest.d", "C*.json"))):
+    CHECKS[os.path.basename(f)[:3]] = json.load(open(f))
 NOT_BUILT = "check not built yet in this round (planned, DESIGN 7.1); nothing is claimed"
 def main():
     checks = []
